@@ -16,7 +16,7 @@ META = {
     "note": "Side conditions of well-formed templates are explicit in the generator (names free of delimiters, loop value names not a prefix of any other name, attribute texts free of their quote, integers only: real formatting is C10, sort/group are C15/C18).",
 }
 
-THEOREMS = ["Qentem.Props.C02.render_parse_print_text", "Qentem.Props.C02.expandList_text", "Qentem.Props.C01.render_text", "Qentem.Props.C01.parse_text", "Qentem.Props.C01.finder_safe_total",
+THEOREMS = ["Qentem.Props.C02.render_parse_print_text", "Qentem.Props.C02.parse_segs", "Qentem.Props.C02.render_parse_print_segs", "Qentem.Props.C02.getValue_eq_resolve", "Qentem.Props.C02.scan_eval_relocatable", "Qentem.Props.C02.expandList_text", "Qentem.Props.C01.render_text", "Qentem.Props.C01.parse_text", "Qentem.Props.C01.finder_safe_total",
             "Qentem.Props.C01.render_safe_of_wf", "Qentem.Props.C04.evaluate_eq_tree",
             "Qentem.Props.C03.escape_no_raw_special"]
 OPEN = ["Qentem.Props.C02.RenderParsePrint: WellFormed t -> render (parse (printTpl t)) v = expand t v (statement only; decided per run by this check)"]
@@ -38,6 +38,8 @@ def enc(doc):
         return "%s%d" % (k, doc[1])
     if k == "s":
         return "s" + dots(doc[1])
+    if k == "p":
+        return "p," + enc(doc[1])
     if k == "a":
         return ",".join(["a%d" % len(doc[1])] + [enc(d) for d in doc[1]])
     return ",".join(["o%d" % len(doc[1])] + ["k" + dots(key) + "," + enc(d) for key, d in doc[1]])
@@ -202,6 +204,129 @@ class Gen:
         return tops, toks
 
 
+DEEPVARS = ["Xa", "Xb", "Xc", "Xd", "Xe", "Xf", "Xg", "Xh", "Xi", "Xj", "Xk", "Xm", "Xn", "Xo"]
+# units whose LOW BYTE is an ASCII digit (0x30..0x39) but which are not digits
+WIDE_DIGITS_16 = [0x0130, 0x0131, 0x0430, 0x0431, 0x0433, 0x0439, 0x0630, 0x0633, 0x0639, 0x3030, 0x3031, 0xFF30, 0xFF35]
+WIDE_DIGITS_32 = [0x10030, 0x10031, 0x1F630, 0x10FF39]
+
+
+def deep_case(rng, depth=None):
+    """block tags nested `depth` deep (loops and ifs mixed; Level = number of enclosing block tags):
+    an outer loop with >= 2 items, an inner loop whose Level is depth - 1 (the 8/9 boundary of a
+    pre-sized loop-item array is inside 6..13), outer variables used inside and AFTER the inner loop."""
+    depth = depth or rng.choice([7, 8, 8, 9, 9, 9, 10, 10, 11, 12, 13])
+    n_outer = rng.randrange(2, 4)
+    outer = ("a", [("n", rng.randrange(0, 30)) for _ in range(n_outer)]) if rng.random() < 0.6 else \
+        ("o", [(U(k), ("n", rng.randrange(0, 30))) for k in rng.sample(["p", "q", "k", "d"], n_outer)])
+    inner = ("a", [("s", U(rng.choice(["x", "y", "<z>", "w"]))) for _ in range(rng.randrange(1, 4))])
+    doc = ("o", [(U("l"), outer), (U("m"), inner), (U("n"), ("n", rng.randrange(1, 9)))])
+    # positions of the loops among the `depth` block tags: the first and the last are loops, others random
+    mid = ["I"] * (depth - 2)
+    for pos in rng.sample(range(depth - 2), rng.randrange(0, 3)):   # at most 4 loops: the work is a product
+        mid[pos] = "L"
+    kinds = ["L"] + mid + ["L"]
+    vars_, j = [], 0
+    for k in kinds:
+        vars_.append(DEEPVARS[j] if k == "L" else None)
+        j += (k == "L")
+    def build(i):
+        if i == len(kinds):
+            used = [v for v in vars_ if v]
+            return ["x" + dots(U("["))] + ["v" + dots(U(v)) for v in used] + ["x" + dots(U("]"))]
+        body = build(i + 1)
+        tail = ["v" + dots(U(vars_[0])), "x" + dots(U(";"))] if rng.random() < 0.7 else []
+        inner_toks = body + tail
+        cnt = count_nodes(inner_toks)
+        if kinds[i] == "L":
+            st = "l" if i == 0 else ("m" if i == len(kinds) - 1 or rng.random() < 0.5 else "l")
+            return ["l%s:%s:%d" % (dots(U(st)), dots(U(vars_[i])), cnt)] + inner_toks
+        case = rng.choice(["1", "{var:n}", "2 > 1", "{var:%s} >= 0" % vars_[0]])
+        return ["i1", "c" + dots(U(case)), "b%d" % cnt] + inner_toks
+    return doc, build(0)
+
+
+def count_nodes(toks):
+    """number of top-level nodes in a token list of the tplspec code"""
+    i, n = 0, 0
+    def skip(i):
+        t = toks[i]
+        k = t[0]
+        if k in "xvrm":
+            return i + 1
+        if k == "s":
+            c = int(t.split(":")[1]); i += 1
+            for _ in range(c):
+                i = skip(i)
+            return i
+        if k == "q":
+            _, a, b = t[1:].split(":"); i += 1
+            for c in (a, b):
+                if c != "-":
+                    for _ in range(int(c)):
+                        i = skip(i)
+            return i
+        if k == "i":
+            nb = int(t[1:]); i += 1
+            for _ in range(nb):
+                i += 1          # c.. or e
+                c = int(toks[i][1:]); i += 1
+                for _ in range(c):
+                    i = skip(i)
+            return i
+        if k == "l":
+            c = int(t.split(":")[2]); i += 1
+            for _ in range(c):
+                i = skip(i)
+            return i
+        raise ValueError(t)
+    while i < len(toks):
+        i = skip(i)
+        n += 1
+    return n
+
+
+def wide_svar_case(rng, w):
+    """a super-variable phrase with `{u}` where u is a NON-digit unit whose low byte is 0x30..0x39"""
+    pool = WIDE_DIGITS_16 + (WIDE_DIGITS_32 if w in ("4", "W") else [])
+    phrase = []
+    for _ in range(rng.randrange(1, 4)):
+        x = rng.random()
+        if x < 0.6:
+            phrase += [123, rng.choice(pool), 125]
+        elif x < 0.8:
+            phrase += [123, 48 + rng.randrange(0, 6), 125]
+        else:
+            phrase += [rng.choice(pool), rng.choice([97, 32, 123, 125])]
+    nargs = rng.randrange(4, 10)
+    doc = ("o", [(U("ph"), ("s", phrase)), (U("a"), ("n", 7)), (U("b"), ("s", U("B")))])
+    toks = ["s%s:%d" % (dots(U("ph")), nargs)] + [rng.choice(["v" + dots(U("a")), "r" + dots(U("b")), "m" + dots(U("1+1"))]) for _ in range(nargs)]
+    return doc, toks
+
+
+def narrow_field_probe(ctx, exe):
+    """The tag records keep name lengths / attribute offsets in 8- and 16-bit fields. Names of 256 units and
+    more are derivable from the documented grammar; the documented expansion of `{var:<name>}` with the key
+    present is the value. Probed on the real code with fixed witnesses (recorded finding when it fails)."""
+    lines, exp = [], []
+    for n in (255, 256, 300):
+        key = [97 + (i % 26) for i in range(n)]
+        doc = "o1,k%s,s118" % ".".join(str(x) for x in key)                       # {"<key>": "v"}
+        tpl = [ord(c) for c in "{var:"] + key + [125]
+        lines.append("tplrender 1 %s %s" % (doc, core.show_units(tpl))); exp.append("118")
+        doc2 = "o1,k%s,a1,s118" % ".".join(str(x) for x in key)                   # {"<key>": ["v"]}
+        tpl2 = [ord(c) for c in '<loop set="'] + key + [ord(c) for c in '" value="x">{var:x}</loop>']
+        lines.append("tplrender 1 %s %s" % (doc2, core.show_units(tpl2))); exp.append("118")
+    impl, faults = core.run_lines(exe, lines)
+    for i, kind, err in faults:
+        ctx.fail("fault:" + kind, "fault rendering a long name: " + lines[i][:200], {"line": lines[i], "stderr": err})
+    for l, a, e in zip(lines, impl, exp):
+        got = a.split(" ")[-1] if a and not a.startswith("FAULT") else a
+        if got != e and not a.startswith("FAULT"):
+            ctx.fail("name-of-256-units-or-more", "a name of >= 256 units is not resolved although the key exists (8/16-bit tag fields): %s... -> %s" % (l[:80], a[-60:]),
+                     {"line": l, "impl": a, "expected_text_units": e})
+    ctx.count("narrow-field-probe", len(lines), len(lines))
+
+
 def run(ctx):
     ctx.gen_constants(["Expr", "Tmpl", "Escape"])
     mods = ["Qentem.Props.C02", "Qentem.Props.C01", "Qentem.Props.C04", "Qentem.Props.C03"]
@@ -210,24 +335,35 @@ def run(ctx):
     exe = ctx.build_harness("template_harness.cpp")
     if not (drv and exe):
         return
+    narrow_field_probe(ctx, exe)
     g = Gen(ctx.rng)
     N = 30000 if not ctx.thorough else 300000
-    spec_lines = []
-    for _ in range(N):
+    spec_lines, widths = [], []
+    for k in range(N):
         doc = g.root()
         _, toks = g.nodes([], 3)
         spec_lines.append("tplspec 1 %s %s" % (enc(doc), ",".join(toks)))
+        widths.append("1" if k % 10 else ctx.rng.choice("24W"))
+    for _ in range(N // 20):          # nesting 7..13 block tags deep (Level 6..12)
+        doc, toks = deep_case(ctx.rng)
+        spec_lines.append("tplspec 1 %s %s" % (enc(doc), ",".join(toks)))
+        widths.append(ctx.rng.choice("1112W"))
+    for _ in range(N // 20):          # wide units with an ASCII-digit low byte inside {..} of a phrase
+        w = ctx.rng.choice("24W")
+        doc, toks = wide_svar_case(ctx.rng, w)
+        spec_lines.append("tplspec 1 %s %s" % (enc(doc), ",".join(toks)))
+        widths.append(w)
     spec_out, _ = core.run_lines_parallel(drv, spec_lines, jobs=12, env=None)
     lines, expected, keep = [], [], []
     bad_spec = 0
-    for l, o in zip(spec_lines, spec_out):
+    for l, o, w in zip(spec_lines, spec_out, widths):
         t = o.split(" ")
         if len(t) != 4 or t[0] != "P" or t[2] != "E":
             bad_spec += 1
             continue
         if "63" in t[3].split(",") and "63" not in t[1].split(","):
             continue   # a real number was formatted ('?'): outside this check
-        lines.append("tplrender 1 %s %s" % (l.split(" ")[2], t[1]))
+        lines.append("tplrender %s %s %s" % (w, l.split(" ")[2], t[1]))
         expected.append("R " + t[3])
         keep.append(l)
     if bad_spec:
@@ -253,5 +389,5 @@ def run(ctx):
 
 
 FINISH = dict(level="proof",
-              rule="generated template trees (text, var, raw, math, svar, inline if, if chains, loops nested <= 3) x generated value trees; printed by the Lean printer, rendered by the real code on exact-size buffers under ASan/UBSan, compared with the Lean reference expansion; non-trivial = contains at least one tag",
+              rule="generated template trees (text, var, raw, math, svar, inline if, if chains, loops nested <= 3; block tags nested 7..13 deep with loops at the 8/9 boundary; super-variable phrases with wide units whose low byte is an ASCII digit) x generated value trees, widths 1/2/4/wchar_t; printed by the Lean printer, rendered by the real code on exact-size buffers under ASan/UBSan, compared with the Lean reference expansion; non-trivial = contains at least one tag",
               checker_cmd="cd lean && lake build Qentem.Props.C01 Qentem.Props.C04 Qentem.Props.C03 && lake env lean <#print axioms>")
